@@ -35,13 +35,18 @@ class Ob:
     def __init__(self, name, harness, srcs=(), defs=(), unwind=1, unwindset=(), replace=(), lib=None,
                  flags=(), drop_checks=(), witness=True, budget=None, tier='quick', functions=(),
                  bounds='', assumptions=(), stubs=(), mask=(), replay=True, mem_gb=12, inc=(),
-                 witness_defs=(), no_base_defs=False, solver='kissat'):
+                 witness_defs=(), no_base_defs=False, solver='kissat', gen=None, nosimplify=False):
         self.name, self.harness, self.srcs, self.defs = name, harness, list(srcs), list(defs)
         self.unwind, self.unwindset, self.replace, self.lib = unwind, list(unwindset), list(replace), lib
         self.flags, self.drop_checks, self.witness, self.budget = list(flags), list(drop_checks), witness, budget
         self.tier, self.functions, self.bounds = tier, list(functions), bounds
         self.assumptions, self.stubs, self.mask, self.replay = list(assumptions), list(stubs), list(mask), replay
         self.mem_gb, self.inc, self.witness_defs, self.no_base_defs, self.solver = mem_gb, list(inc), list(witness_defs), no_base_defs, solver
+        self.gen = gen
+        # cbmc 6.11's expression simplifier mis-reads `row[sym]` when row points at a constant row >= 1 of a top-level
+        # multi-dimensional byte array (repro: findings/cbmc_2d_array_simplifier_bug.c); harnesses that read such tables
+        # through row pointers run with --no-simplify (slower, sound)
+        self.nosimplify = nosimplify
 
 
 def log(*a):
@@ -99,9 +104,12 @@ class Runner:
         return known
 
     # ---------- build ----------
-    def cc_args(self, ob, extra_defs=()):
+    def cc_args(self, ob, extra_defs=(), gendir=None):
         cfg = os.path.join(VERIF, 'harness', 'cfg')
         a = ['-I' + os.path.join(VERIF, x) for x in ob.inc]
+        gd = gendir or getattr(ob, '_gendir', None)
+        if gd:
+            a.append('-I' + gd)
         a += ['-I' + os.path.join(REPO, i) for i in INC] + ['-I' + cfg, '-I' + os.path.join(VERIF, 'harness'),
                                                            '-I' + os.path.join(VERIF, 'spec')]
         if not ob.no_base_defs:
@@ -111,6 +119,11 @@ class Runner:
 
     def build(self, ob, d, witness):
         os.makedirs(d, exist_ok=True)
+        if ob.gen:
+            gd = os.path.join(os.path.dirname(d), 'gen')
+            os.makedirs(gd, exist_ok=True)
+            ob.gen(gd)          # regenerated from /repo's current sources on every run
+            ob._gendir = gd
         extra = (['-DWITNESS'] + ob.witness_defs) if witness else []
         gb = os.path.join(d, 'h.gb')
         harness = os.path.join(VERIF, 'harness', ob.harness)
@@ -197,6 +210,8 @@ class Runner:
             checks = [c for c in CBMC_CHECKS if c not in ob.drop_checks]
             cmd += checks
         cmd += ob.flags
+        if ob.nosimplify:
+            cmd += ['--no-simplify']
         if ob.solver == 'kissat':
             cmd += ['--external-sat-solver', 'kissat']
         elif ob.solver == 'cadical':
@@ -526,7 +541,8 @@ class Runner:
                                 outside_claim=getattr(mod, 'OUTSIDE', ''), exhaustive=False),
                   assumptions=getattr(mod, 'ASSUMPTIONS', []), wall_s=round(wall, 1), violations=nviol)
         os.makedirs(os.path.join(VERIF, 'evidence'), exist_ok=True)
-        with open(os.path.join(VERIF, 'evidence', self.prop + '.json'), 'w') as f:
+        path = os.path.join(VERIF, 'evidence', self.prop + '.json') if not self.only else os.path.join(self.scratch, 'partial-evidence.json')
+        with open(path, 'w') as f:
             json.dump(ev, f, indent=1)
 
 
